@@ -128,3 +128,189 @@ def reference(name, x, y, shifted=None):
         y = [float(b) + EPSILON for b in y]
     v, m = ref([D(float(a)) for a in x], [D(float(b)) for b in y])
     return float(v), float(m)
+
+
+# Scales at which the value comparison of C06 is also made ("numeric extremes", lengths <= 8): vectors of the metric's domain
+# multiplied by the scale.  Squares stay inside the float64 range at 1e+-80, so a formula evaluated term by term neither overflows
+# nor underflows there; a refactoring that multiplies norms before the root, or takes a product instead of a sum of logs, does.
+# Probability-domain metrics cannot be rescaled; 'statistic' is dominated by the EPSILON shift at 1e-80 (ill-conditioned).
+EXTREME_SCALES = {
+ "additive_symmetric": [
+  1e-80,
+  1e+80
+ ],
+ "average_euclidean": [
+  1e-80,
+  1e+80
+ ],
+ "bhattacharyya": [],
+ "bray_curtis": [
+  1e-80,
+  1e+80
+ ],
+ "canberra": [
+  1e-80,
+  1e+80
+ ],
+ "chebyshev": [
+  1e-80,
+  1e+80
+ ],
+ "chi_squared": [
+  1e-80,
+  1e+80
+ ],
+ "chord": [
+  1e-80,
+  1e+80
+ ],
+ "clark": [
+  1e-80,
+  1e+80
+ ],
+ "cosine": [
+  1e-80,
+  1e+80
+ ],
+ "dice": [
+  1e-80,
+  1e+80
+ ],
+ "divergence": [
+  1e-80,
+  1e+80
+ ],
+ "euclidean": [
+  1e-80,
+  1e+80
+ ],
+ "gaussian": [
+  1e-80,
+  1e+80
+ ],
+ "gower": [
+  1e-80,
+  1e+80
+ ],
+ "hamming": [
+  1e-80,
+  1e+80
+ ],
+ "hassanat": [
+  1e-80,
+  1e+80
+ ],
+ "hellinger": [
+  1e-80,
+  1e+80
+ ],
+ "jaccard": [
+  1e-80,
+  1e+80
+ ],
+ "jeffreys": [
+  1e-80,
+  1e+80
+ ],
+ "jensen": [
+  1e-80,
+  1e+80
+ ],
+ "jensen_shannon": [
+  1e-80,
+  1e+80
+ ],
+ "k_divergence": [],
+ "kulczynski": [
+  1e-80,
+  1e+80
+ ],
+ "kullback_leibler": [],
+ "log_euclidean": [
+  1e-80,
+  1e+80
+ ],
+ "log_squared_euclidean": [
+  1e-80,
+  1e+80
+ ],
+ "lorentzian": [
+  1e-80,
+  1e+80
+ ],
+ "manhattan": [
+  1e-80,
+  1e+80
+ ],
+ "matusita": [
+  1e-80,
+  1e+80
+ ],
+ "max_symmetric": [
+  1e-80,
+  1e+80
+ ],
+ "mean_censored_euclidean": [
+  1e-80,
+  1e+80
+ ],
+ "min_symmetric": [
+  1e-80,
+  1e+80
+ ],
+ "neyman": [
+  1e-80,
+  1e+80
+ ],
+ "non_intersection": [
+  1e-80,
+  1e+80
+ ],
+ "pearson": [
+  1e-80,
+  1e+80
+ ],
+ "sangvi": [
+  1e-80,
+  1e+80
+ ],
+ "soergel": [
+  1e-80,
+  1e+80
+ ],
+ "squared": [
+  1e-80,
+  1e+80
+ ],
+ "squared_chord": [
+  1e-80,
+  1e+80
+ ],
+ "squared_euclidean": [
+  1e-80,
+  1e+80
+ ],
+ "statistic": [
+  1e+80
+ ],
+ "topsoe": [
+  1e-80,
+  1e+80
+ ],
+ "vicis_symmetric1": [
+  1e-80,
+  1e+80
+ ],
+ "vicis_symmetric2": [
+  1e-80,
+  1e+80
+ ],
+ "vicis_symmetric3": [
+  1e-80,
+  1e+80
+ ],
+ "vicis_wave_hedges": [
+  1e-80,
+  1e+80
+ ]
+}
